@@ -18,6 +18,9 @@ def main():
         opts = doc.get("opts") or opts
     else:
         tape = Tape(seed=int(what))
+    import random
+    import numpy as np
+    np.random.seed(0); random.seed(0)
     t = time.time()
     res = check.run_one(tape, tier, opts)
     res["wall"] = round(time.time() - t, 3)
